@@ -61,12 +61,21 @@ def make_skeleton(spec):
         name, before, texpr, after = [e for e in encodings(ev) if e[0] == spec['enc']][0]
         ann = 'ctx: SetupContext<%s>' % texpr
         expected = ev
-    fn = '(props: {{ a: string }}, %s) => () => null' % ann if spec.get('setup', 'arrow') == 'arrow' else 'function (props: {{ a: string }}, %s) {{ return () => null }}' % ann
+    ptype = '{{ a: string }}'
+    if spec.get('ctx') == 'pick-props':
+        # the props type expands the same literal-union alias before the emits are collected
+        ptype = 'Pick<{{ %s }}, Ev>' % '; '.join("'%s': string" % n for n in ev)
+    fn = '(props: %s, %s) => () => null' % (ptype, ann) if spec.get('setup', 'arrow') == 'arrow' else 'function (props: %s, %s) {{ return () => null }}' % (ptype, ann)
     call = ('export default ' if spec.get('scope') != 'local' else '') + 'defineComponent(%s);' % fn
+    if spec.get('ctx') == 'second-call':
+        # an earlier component of the same module declares its events through the same type
+        call = 'const First = defineComponent((p: {{ b: number }}, %s) => () => null);\n' % ann + call
+    elif spec.get('ctx') == 'third-call':
+        call = ('const First = defineComponent((p: {{ b: number }}, %s) => () => null);\n' % ann) * 2 + call
     shadow = 'interface Em {{ (e: "shadowed"): void }}\ntype Ev = "shadowed2";\n' if spec.get('scope') == 'local' else ''
     src = rt.module_src('EXPECT-EMITS', expected, before, call, after, spec.get('scope', 'top'), shadow).replace("from 'vue'", "from 'vue'") \
         .replace("import {{ defineComponent }} from 'vue';", "import {{ defineComponent, type SetupContext }} from 'vue';")
-    return Skeleton('c19#%s|%s|%s|%s' % (','.join(ev), spec['enc'], spec.get('scope', 'top'), spec.get('setup', 'arrow')), src, [], {'resolve_type': True}, tsx=True,
+    return Skeleton('c19#%s|%s|%s|%s%s' % (','.join(ev), spec['enc'], spec.get('scope', 'top'), spec.get('setup', 'arrow'), '|' + spec['ctx'] if spec.get('ctx') else ''), src, [], {'resolve_type': True}, tsx=True,
                     meta={'family': 'c19/' + spec['enc']})
 
 
@@ -74,22 +83,30 @@ def oracle(env):
     ctx = env.ctx
     expected = rt.read_expect(env, 'EXPECT-EMITS')
     calls = c17.find_define_component_call(env.post)
-    if len(calls) != 1:
+    if len(calls) < 1:
         raise Unsupported('harness: call not found')
-    eo = rt.emits_option(calls[0])
     obs = []
+    for i, call in enumerate(calls):
+        obs.extend(_call_obligations(env, call, expected, i, len(calls)))
+    return obs
+
+
+def _call_obligations(env, call, expected, idx, n):
+    eo = rt.emits_option(call)
+    obs = []
+    which = {'call': '%d of %d' % (idx + 1, n)}
     if expected is None:
         obs.append(Obligation('no SetupContext<E> annotation, no emits option', eo is None, {'got': repr(eo)[:120]}))
         return obs
     if eo is None or not denote.is_expr(eo, 'Array'):
-        return [Obligation('the call receives an emits option', False, {'diags': list(env.diags)})]
+        return [Obligation('the call receives an emits option', False, dict(which, diags=list(env.diags)))]
     got = []
     for el in denote.E(eo).fields[0].get('elems'):
         s = denote.str_lit(el.fields[0].get('expr')) if is_some(el) else None
         if s is None or not s.is_concrete():
-            return [Obligation('emits entries are string literals', False)]
+            return [Obligation('emits entries are string literals', False, which)]
         got.append(s.py())
-    obs.append(Obligation('emits lists exactly the declared event names', sorted(set(got)) == sorted(set(expected)), {'expected': sorted(expected), 'got': got}))
+    obs.append(Obligation('emits lists exactly the declared event names', sorted(set(got)) == sorted(set(expected)), dict(which, expected=sorted(expected), got=got)))
     return obs
 
 
@@ -102,6 +119,14 @@ def jobs(tier):
             if e[0] in ('interface', 'alias-fn', 'literal-union-alias', 'extends'):
                 out.append({'events': ev, 'enc': e[0], 'scope': 'local'})
                 out.append({'events': ev, 'enc': e[0], 'setup': 'fn'})
+    for ev in sets[1:]:
+        for e in encodings(ev):
+            if e[0].startswith('after-'):
+                continue
+            out.append({'events': ev, 'enc': e[0], 'ctx': 'second-call'})
+            if e[0] in ('literal-union-alias', 'literal-union-alias-chain'):
+                out.append({'events': ev, 'enc': e[0], 'ctx': 'pick-props'})
+                out.append({'events': ev, 'enc': e[0], 'ctx': 'third-call'})
     for k in ('none', 'any', 'bare', 'other-name'):
         out.append({'events': [], 'enc': k})
         out.append({'events': [], 'enc': k, 'setup': 'fn'})
@@ -121,7 +146,7 @@ def classify(v, detail):
 def main(argv):
     rep = common.Report(PROP)
     js = jobs(rep.tier)
-    rep.bounds = {'event_sets': SETS, 'encodings': [e[0] for e in encodings(SETS[1])] + ['none', 'any', 'bare SetupContext', 'other generic name'], 'scopes': ['top', 'local shadowing'], 'setup': ['arrow', 'function expression']}
+    rep.bounds = {'event_sets': SETS, 'encodings': [e[0] for e in encodings(SETS[1])] + ['none', 'any', 'bare SetupContext', 'other generic name'], 'scopes': ['top', 'local shadowing'], 'setup': ['arrow', 'function expression'], 'module_contexts': ['single call', 'a second / third component of the module using the same type', 'props type expanding the same literal-union alias']}
     rep.assumptions = ['the expectation travels in the module as a generator-written comment']
     res = common.run_jobs('mirsym.checks.elements', 'run_family_job', js)
     raw = []
